@@ -201,7 +201,7 @@ impl C16 {
     }
 }
 
-const LABELS: [&str; 10] = ["a", "res_1", "X", "p0", "set", "Q_q", "z9", "attr", "fixed_points", "_u"];
+const LABELS: [&str; 17] = ["a", "res_1", "X", "p0", "set", "Q_q", "z9", "attr", "fixed_points", "_u", "a.b", "with space", "\u{fc}n\u{ef}_1", "x.bdd", "a.", "A", "formula-7"];
 
 fn small_formula(rng: &mut Rng, props: &[String], k: u16) -> F {
     let p = |rng: &mut Rng| F::prop(rng.pick(props));
